@@ -1,5 +1,5 @@
-"""C20 — configuration maps, atoi family (affinity / env clamp: see below)."""
-import itertools, struct
+"""C20 — configuration maps, atoi family, ABT_SET_AFFINITY parser, ABT_* numeric settings."""
+import itertools, struct, re, os
 import vlib
 
 ID = "C20"
@@ -121,11 +121,273 @@ def gen_at(rng, tier):
     return cases, {"at_exhaustive_len<=%d_alphabet6" % maxlen: n_exh, "at_limits": nlim, "at_random": nrand}
 
 
+# ------------------------------------------------------------------ AF: affinity strings
+INT_MAX = 2**31 - 1
+MAX_NUM_ELEMS = 1024 * 1024
+AF_ALPHA = "09+- {}:,"
+# the compiled-out self test of abtd_affinity_parser.c (legal / illegal / comparison strings)
+AF_SELFTEST = [
+    "++1", "+-1", "+-+-1", "+0", "-0", "-9:1:-9", "-9:1:0", "-9:1:9", "0:1:-9", "0:1:0", "0:1:9", "9:1:-9", "9:1:0",
+    "9:1:9", "{-9:1:-9}", "{-9:1:0}", "{-9:1:9}", "{0:1:-9}", "{0:1:0}", "{0:1:9}", "{9:1:-9}", "{9:1:0}", "{9:1:9}",
+    "1,2,3", "1,2,{1,2}", "1,2,{1:2}", "1:2,{1:2}", "1:2:1,2", " 1 :  +2 , { -1 : \r 2\n:2}\n",
+    "", "{}", "+ 1", "+ +1", "+ -1", "1:", "1:2:", "1:2,", "1:-2", "1:0", "1:-2:4", "1:0:4", "1:1:1:", "1:1:1:1",
+    "1:1:1:1,1", "{1:2:3},", "{1:2:3}:", "{1:2:3}:2:", "{:2:3}", "{{2:3}}", "{2:3}}", "2:3}", "{1:2:3", "{1,2,}",
+    "{1:-2}", "{1:0}", "{1:-2:4}", "{1:0:4}",
+    "{1},{2},{3},{4}", "1,2,3,4", "{1:4:1}", "{1,2,3,4}", "{1:4}", "1:2,3:2", "{1:2},3:2", "{1,2},3,4",
+    "{1:1:4},{2:1:-4},{3:1:0},{4:1}", "{3:4:-1}", "{3,2,1,0}", "3:4:-1,-1", "3,2,1,0,-1", "{1:2:3}:1", "{1,4}",
+    "{1:2:3}:3", "{1,4},{2,5},{3,6}", "{1:2:3}:3:2", "{1:2:3}:3:-2", "{1:2:3}:3:-2,1", "{-2:3:-2}:2:-4",
+    # documentation examples
+    "{0},{1},{2},{3},{4},{5},{6},{7},{8},{9},{10},{11}", "{0}:12:1", "0:12", "{6}:6:1,{0}:6:1", "6:6,0:6",
+    "{0}:3:4,{1}:3:4,{2}:3:4,{3}:3:4", "{0,1,2,3}:3:4", "{0:4:1}:3:4", "{0:4}:3:4", "{0,6},{2,8},{4,10}", "{0,6}:3:2",
+]
+# around INT_MAX (finding F3: literals beyond INT_MAX), wrap-around of id + stride * i, MAX_NUM_ELEMS
+AF_LIMITS = [
+    "2147483647", "-2147483647", "2147483648", "-2147483648", "99999999999", "-99999999999", "21474836470",
+    "4294967296", "4294967297", "0000000000000000000002147483647", "0000000000000000000002147483648",
+    "{2147483647}", "{2147483648}", "{0:2147483648}", "{0:2:2147483648}", "0:2147483648", "0:1:2147483648",
+    "1,2,2147483648", "1,{2,-2147483649}", " +-2147483650 ", "9223372036854775807", "18446744073709551616",
+    "2147483647:3:1", "{2147483647:3:1}", "-2147483647:3:-1", "{-2147483647:4:-1}", "5:4:2147483647",
+    "{5:4:2147483647}", "{2147483647:2:2147483647}:3:2147483647", "{0:3:-2147483647}:2:-2147483647",
+    "0:1048575:0x", "0:1048576", "{0:1048576}", "{0:1048576:0}", "0:1048577:0", "0:2147483647", "{0:2147483647}",
+    "0:999999", "0:1048576,1", "{1,0:1048576}", "{1}:1048576", "{1}:01048576:0",
+]
+AF_BIG = ["{5:1048575:0}", "{5:1048574:0}", " { 1 , 5 : +1048575 : -0 } "]
+AF_BIG_THOROUGH = ["7:1048575:0", "0:1048575", "{0:1048575}", "{3,0:1048575:-1}:2:5", "{1}:1048575:0,2"]
+
+
+def _af_int(rng, kind):
+    """an integer literal; 10-digit literals (which cost the harness a fork) and literals beyond INT_MAX
+    (finding F3) are kept rare"""
+    r = rng.random()
+    if kind == "num":
+        v = rng.choice([1, 1, 2, 2, 3, 4, 5, 7, 12]) if r < 0.93 else rng.choice([0, 0, -1, -3, 40, 40, 100, 100, 1048576, 999999999, 2147483648])
+    elif kind == "stride":
+        v = rng.randint(-9, 9) if r < 0.85 else rng.choice([12, 100, -100, 12, 100, -100, 64, -1000, 999999999, -999999999, 715827883,
+                                                            2147483647, -2147483647, 1073741824, 4294967295, 2147483648])
+    else:
+        v = rng.randint(-12, 40) if r < 0.975 else rng.choice([999999999, -999999999, 123456789, 2147483647, -2147483647, 2147483646,
+                                                               2147483648, -2147483648, 1000000000, 4294967296, 99999999999])
+    neg = v < 0
+    digits = "0" * rng.choice([0, 0, 0, 0, 1, 3]) + str(abs(v))
+    signs = ""
+    if rng.random() < 0.25:
+        signs = "".join(rng.choice("+-") for _ in range(rng.choice([1, 1, 2, 3])))
+    if (signs.count("-") % 2 == 1) != neg:
+        signs = "-" + signs
+    return signs + digits
+
+
+def _ws(rng):
+    return "".join(rng.choice(" \t\r\n ") for _ in range(rng.choice([0, 0, 0, 0, 1, 1, 2])))
+
+
+def _af_opt(rng):
+    r = rng.random()
+    if r < 0.45:
+        return ""
+    s = _ws(rng) + ":" + _ws(rng) + _af_int(rng, "num")
+    if r < 0.75:
+        return s
+    return s + _ws(rng) + ":" + _ws(rng) + _af_int(rng, "stride")
+
+
+def _af_es(rng):
+    if rng.random() < 0.45:
+        return _ws(rng) + _af_int(rng, "id")
+    items = [_ws(rng) + _af_int(rng, "id") + _af_opt(rng) for _ in range(rng.choice([1, 1, 2, 3, 4]))]
+    return _ws(rng) + "{" + (_ws(rng) + ",").join(items) + _ws(rng) + "}"
+
+
+def af_valid(rng):
+    items = [_af_es(rng) + _af_opt(rng) for _ in range(rng.choice([1, 1, 2, 2, 3, 5, 8]))]
+    return (_ws(rng) + ",").join(items) + _ws(rng)
+
+
+def af_mutate(rng, s):
+    chars = AF_ALPHA + "\t\r\n123456789" + "ax;}{"
+    for _ in range(rng.choice([1, 1, 2, 3])):
+        k = rng.random()
+        i = rng.randrange(len(s) + 1)
+        if k < 0.3 and s:
+            i = min(i, len(s) - 1)
+            s = s[:i] + s[i + 1:]
+        elif k < 0.6:
+            s = s[:i] + rng.choice(chars) + s[i:]
+        elif k < 0.85 and s:
+            i = min(i, len(s) - 1)
+            s = s[:i] + rng.choice(chars) + s[i + 1:]
+        elif s:
+            i = min(i, len(s) - 1)
+            s = s[:i] + s[i] + s[i:]
+    return s
+
+
+def af_size_bound(s):
+    """crude upper bound on the number of ids the string can expand to: the product of all
+    integers written after a ':' (counts and strides) that could be a count"""
+    b = 1
+    for run in re.findall(r":[ \t\r\n+-]*([0-9]+)", s):
+        v = int(run)
+        if 2 <= v < MAX_NUM_ELEMS:
+            b *= v
+    return b
+
+
+def gen_af(rng, tier):
+    cases = ["AF null", "AF 49 0 50", "AF 49 44 0 123"]
+    maxlen = 5 if tier == "quick" else 6
+    n_exh = 0
+    for L in range(0, maxlen + 1):
+        for t in itertools.product(AF_ALPHA, repeat=L):
+            cases.append("AF " + " ".join(str(ord(ch)) for ch in t))
+            n_exh += 1
+    cur = AF_SELFTEST + AF_LIMITS
+    for s0 in cur:
+        cases.append("AF " + _s2codes(s0))
+    nrand = 4000 if tier == "quick" else 120000
+    n_valid = n_mut = n_drop = 0
+    for _ in range(nrand):
+        s0 = af_valid(rng)
+        if rng.random() < 0.5:
+            s0 = af_mutate(rng, s0)
+            n_mut += 1
+        else:
+            n_valid += 1
+        if af_size_bound(s0) > 200000:
+            n_drop += 1
+            continue
+        cases.append("AF " + _s2codes(s0))
+    return cases, {"af_exhaustive_len<=%d_alphabet9" % maxlen: n_exh, "af_curated": len(cur), "af_random_valid": n_valid,
+                   "af_random_mutated": n_mut, "af_dropped_too_large": n_drop}
+
+
+def _codes2s(case):
+    out = []
+    for x in case.split()[1:]:
+        if not x.lstrip("-").isdigit():
+            return None
+        c = int(x)
+        if c == 0:
+            break
+        out.append(chr(c & 0xFF))
+    return "".join(out)
+
+
+def af_has_overflow_literal(case):
+    s0 = _codes2s(case)
+    return s0 is not None and any(int(r) > INT_MAX for r in re.findall(r"[0-9]+", s0))
+
+
+# ------------------------------------------------------------------ ENV: ABT_* settings
+U32, U64 = 2**32, 2**64
+ENV_NUM = {   # name -> interesting magnitudes
+    "MAX_NUM_XSTREAMS": [0, 1, 2, 17, 2**30 - 1, 2**30, 2**31 - 1, 2**31, 2**32, 2**63, 2**64],
+    "KEY_TABLE_SIZE": [0, 1, 2, 3, 4, 5, 1023, 1025, 65536, 65537, 2**30, 2**30 + 1, 2**31 - 1, 2**31, 2**32 - 1, 2**32, 2**64],
+    "SYS_PAGE_SIZE": [0, 1, 63, 64, 65, 4095, 4096, 4097, 65536, 2**31, 2**32, 2**61, 2**62, 2**62 + 1, 2**63 - 1, 2**63, 2**64 - 1, 2**64],
+    "THREAD_STACKSIZE": [0, 511, 512, 513, 575, 576, 16383, 16384, 16385, 20008, 65536, 2**20, 2**24, 2**24 + 1, 2**26 + 64, 2**31,
+                         2**32, 2**61 - 64, 2**61 - 63, 2**61, 2**62 - 1, 2**62, 2**62 + 1, 2**63 - 64, 2**63 - 1, 2**63, 2**64 - 1, 2**64],
+    "SCHED_STACKSIZE": [0, 511, 512, 513, 16384, 65535, 65536, 2**22, 2**22 + 1, 2**26, 2**26 + 1, 2**32, 2**63 - 1, 2**63, 2**64],
+    "SCHED_EVENT_FREQ": [0, 1, 2, 50, 2**31 - 2, 2**31 - 1, 2**31, 2**32 - 1, 2**32, 2**64],
+    "SCHED_SLEEP_NSEC": [0, 1, 100, 10**6, 10**6 + 1, 2**32, 2**63 - 2, 2**63 - 1, 2**63, 2**64 - 1, 2**64, 10**20],
+    "MUTEX_MAX_HANDOVERS": [0, 1, 2, 64, 2**31 - 1, 2**31, 2**32],
+    "MUTEX_MAX_WAKEUPS": [0, 1, 2, 2**31 - 1, 2**31, 2**32 + 1],
+    "HUGE_PAGE_SIZE": [0, 4095, 4096, 4097, 2**21, 2**30, 2**30 + 1, 2**63 - 1, 2**63, 2**64],
+    "MEM_PAGE_SIZE": [0, 4095, 4096, 4097, 4159, 4160, 2**21, 2**21 + 1, 2**26, 2**26 + 1, 2**62, 2**62 + 1, 2**63 - 64, 2**63 - 63, 2**63 - 1, 2**63, 2**64],
+    "MEM_STACK_PAGE_SIZE": [0, 1, 65535, 65536, 65537, 2**23, 2**28, 2**28 + 1, 2**63 - 1, 2**63, 2**64],
+    "MEM_MAX_NUM_STACKS": [0, 1, 2, 3, 4, 1023, 1024, 65535, 65536, 65537, 2**31 - 2, 2**31 - 1, 2**31, 2**32],
+    "MEM_MAX_NUM_DESCS": [0, 1, 2, 3, 4095, 4097, 2**20, 2**20 + 1, 2**31 - 1, 2**31, 2**32],
+}
+ENV_BOOL = ["USE_LOG", "USE_DEBUG", "PRINT_RAW_STACK", "PRINT_CONFIG"]
+BOOL_VALS = ["0", "1", "y", "Y", "yes", "YeS", "true", "TRUE", "on", "oN", "n", "N", "no", "NO", "false", "False", "off", "OFF",
+             "", "2", "00", "01", " 1", "1 ", "yess", "o", "tru"]
+GUARD_VALS = ["mprotect", "MPROTECT", "mprotect_strict", "Mprotect_Strict", "none", "", "mprotect ", "mprotect_stric", "canary",
+              "mprotect_strictx", "MPROTECT_STRICT"]
+JUNK = ["", " ", "abc", "-", "+", "0x10", "1e3", "١", " \t", "--", "+-"]
+
+
+def _envtok(name, val):
+    return "%s=%s" % (name, ".".join(str(b) for b in val.encode("utf-8", "replace") if b != 0))
+
+
+def _numstr(rng, v):
+    r = rng.random()
+    s0 = str(v)
+    if r < 0.35:
+        return s0
+    pre = rng.choice(["", "", "+", "-", "--", "+-", " ", "\t ", " +", "\n-", "-+-"])
+    zeros = rng.choice(["", "", "0", "000", "0" * 25])
+    suf = rng.choice(["", "", "", " ", "x", "k", ".5", "e3", "-", "+1", "\n", " 7", "_"])
+    return pre + zeros + s0 + suf
+
+
+def gen_env(rng, tier):
+    nc = os.sysconf("SC_NPROCESSORS_ONLN")
+    pg = os.sysconf("SC_PAGE_SIZE")
+    head = "ENV nc=%d pg=%d" % (nc, pg)
+    cases = [head]
+    n_single = 0
+    # every numeric setting alone: limit values +-1, plain / signed / zero-padded / junk suffix
+    for name, vals in ENV_NUM.items():
+        vs = set()
+        for v in vals:
+            vs.update([v, v + 1, max(v - 1, 0)])
+        for v in sorted(vs):
+            forms = [str(v), "-" + str(v), "+" + str(v), "000" + str(v), str(v) + "x", " " + str(v) + " "]
+            if tier == "quick":
+                forms = forms[:1] + rng.sample(forms[1:], 2)
+            for f in forms:
+                prefix = "ABT_" if rng.random() < 0.8 else "ABT_ENV_"
+                cases.append(head + " " + _envtok(prefix + name, f))
+                n_single += 1
+        for j in JUNK:
+            cases.append(head + " " + _envtok("ABT_" + name, j))
+            n_single += 1
+    for name in ENV_BOOL:
+        for v in BOOL_VALS:
+            cases.append(head + " " + _envtok(rng.choice(["ABT_", "ABT_ENV_"]) + name, v))
+            n_single += 1
+    for v in GUARD_VALS:
+        cases.append(head + " " + _envtok("ABT_STACK_OVERFLOW_CHECK", v))
+        cases.append(head + " " + _envtok("ABT_STACK_OVERFLOW_CHECK", v) + " " + _envtok("ABT_SYS_PAGE_SIZE", str(rng.choice([64, 4096, 8192, 2**62, 2**62 + 1, 2**63]))))
+        n_single += 2
+    # alias priority: ABT_X wins over ABT_ENV_X
+    for name in ["KEY_TABLE_SIZE", "THREAD_STACKSIZE", "MAX_NUM_XSTREAMS", "USE_LOG"]:
+        cases.append(head + " " + _envtok("ABT_ENV_" + name, "8") + " " + _envtok("ABT_" + name, "32"))
+        cases.append(head + " " + _envtok("ABT_" + name, "junk") + " " + _envtok("ABT_ENV_" + name, "32"))
+    # combinations
+    ncomb = 500 if tier == "quick" else 8000
+    names = list(ENV_NUM)
+    for _ in range(ncomb):
+        toks = []
+        sane_bias = rng.random() < 0.5
+        for name in rng.sample(names, rng.choice([2, 3, 4, 6])):
+            vals = ENV_NUM[name]
+            if sane_bias:
+                v = rng.choice([x for x in vals if x <= 2**24] or vals)
+            else:
+                v = rng.choice(vals) + rng.choice([0, 0, 1, -1])
+            toks.append(_envtok(rng.choice(["ABT_", "ABT_", "ABT_ENV_"]) + name, _numstr(rng, max(v, 0))))
+        if rng.random() < 0.3:
+            toks.append(_envtok("ABT_STACK_OVERFLOW_CHECK", rng.choice(GUARD_VALS)))
+        if rng.random() < 0.3:
+            toks.append(_envtok("ABT_" + rng.choice(ENV_BOOL[:3]), rng.choice(BOOL_VALS)))
+        rng.shuffle(toks)
+        cases.append(head + " " + " ".join(toks))
+    return cases, {"env_single_variable": n_single, "env_combinations": ncomb}
+
+
 def gen(rng, tier):
     c1, s1 = gen_ht(rng, tier)
     c2, s2 = gen_at(rng, tier)
+    c3, s3 = gen_af(rng, tier)
+    c4, s4 = gen_env(rng, tier)
     s1.update(s2)
-    return c1 + c2, s1
+    s1.update(s3)
+    s1.update(s4)
+    # id lists with 2^20 - 1 elements: last, because the harness process forks slowly once it has grown
+    big = ["AF " + _s2codes(s0) for s0 in AF_BIG + (AF_BIG_THOROUGH if tier != "quick" else [])]
+    s1["af_max_num_elems_boundary"] = len(big)
+    return c1 + c2 + c3 + c4 + big, s1
 
 
 def classify(case, impl, model):
@@ -139,13 +401,26 @@ def classify(case, impl, model):
 def nontrivial(case):
     if case.startswith("HT"):
         return case.count(",") >= 2
+    if case.startswith("ENV"):
+        return "ABT_" in case
+    if case.startswith("AF"):
+        return any(x in ("48", "57") or (x.isdigit() and 48 <= int(x) <= 57) for x in case.split()[1:])
     return any(48 <= int(x) <= 57 for x in case.split()[2:])
+
+
+def known_match(case, impl, model):
+    """F3: signed overflow in consume_int -- exactly the affinity strings that contain an integer literal
+    whose magnitude exceeds INT_MAX; the model (which follows the fixed code) rejects them."""
+    if (case.startswith("AF ") and impl.startswith("CRASH: AF") and "signed integer overflow" in impl
+            and model == "AF reject" and af_has_overflow_literal(case)):
+        return "F3"
+    return None
 
 
 def run(tier, seed, replay):
     return vlib.run_differential_property(
         ID, "Properties_C20.v", ["Properties_C20.vo", "Extract_C20.vo"], "c20", "h_c20.c",
-        gen, classify, nontrivial, tier, seed, replay=replay, san=True,
+        gen, classify, nontrivial, tier, seed, replay=replay, san=True, known_match=known_match,
         rule="HT: every op sequence of length<=L over 9 ops on 3 colliding keys (exhaustive) + seeded sequences on W(hite-box, "
              "n in 1..8)/S(ched)/P(ool) config objects; non-trivial = >=3 ops. AT: all strings of length<=L over ' +-09a' "
              "(exhaustive) + limit-centred and random strings; non-trivial = contains a digit. Distinct = distinct case text.",
